@@ -163,9 +163,23 @@ def allnib(t):
     return _a(t)
 
 
+hwfp = z3.Function("hwfp", HNode, BoolS)      # deep well-formedness (the node and every embedded descendant)
+
+
+def unfold_wf(E, D):
+    """definition of hwfp at D: the node's own conditions plus hwfp of its embedded children"""
+    D = z3.simplify(D)
+    done = E.ghost.setdefault("wf_unfolded", [])
+    if any(x.eq(D) for x in done):
+        return
+    done.append(D)
+    E.assume(mk_bool(hwfp(D) == hwf(E, D)))
+
+
 def hwf(E, D, depth=1):
-    """well-formedness of a node as the trie writes it (one level; children by reference kind only)"""
-    ok_ref = lambda r: z3.Implies(HRef.is_RHash(r), z3.Length(HRef.rhash(r)) == 32)
+    """well-formedness of a node as the trie writes it (one level; embedded children deeply through hwfp)"""
+    ok_ref = lambda r: z3.And(z3.Implies(HRef.is_RHash(r), z3.Length(HRef.rhash(r)) == 32),
+                              z3.Implies(HRef.is_REmb(r), z3.And(hwfp(HRef.remb(r)), z3.Not(HNode.is_HBlank(HRef.remb(r))))))
     return z3.And(
         z3.Implies(HNode.is_HLeaf(D), z3.And(allnib(HNode.lpath(D)), z3.Length(HNode.lval(D)) > 0)),
         z3.Implies(HNode.is_HExt(D), z3.And(allnib(HNode.epath(D)), z3.Length(HNode.epath(D)) > 0, ok_ref(HNode.echild(D)),
@@ -213,7 +227,8 @@ class HexDbInvariant:
         E.assume(mk_bool(vt == unk(kt)))
         E.assume(mk_bool(specfn.keccak(unk(kt)) == kt))
         D = hnode_of_hash(kt)
-        E.assume(mk_bool(hwf(E, D)))
+        E.assume(mk_bool(hwfp(D)))
+        unfold_wf(E, D)
         E.assume(mk_bool(rlpenc(D) == unk(kt)))
         E.assume(mk_bool(z3.Length(unk(kt)) >= 1))          # an rlp encoding is never empty
         E.assume(mk_bool(z3.Not(HNode.is_HBlank(D))))
@@ -260,10 +275,28 @@ def x_encode_raw(E, node):
     return SSeq(r, "bytes", "int")
 
 
+def branch_slot(E, lst, j):
+    """node[i] for a symbolic nibble i on a branch whose child slots are all unexplored references, in a unit that
+    never mutates nodes: the reference selected by i, without a 16-way split"""
+    if not E.ghost.get("read_only") or lst.items is None or len(lst.items) != 17:
+        return NotImplemented
+    if not all(isinstance(x, SRef) for x in lst.items[:16]):
+        return NotImplemented
+    jt = j if isinstance(j, z3.ExprRef) else z3.IntVal(j)
+    if not E.implied(mk_bool(z3.And(jt >= 0, jt <= 15))):
+        return NotImplemented
+    t = lst.items[15].t
+    for i in reversed(range(15)):
+        t = z3.If(jt == i, lst.items[i].t, t)
+    return SRef(z3.simplify(t))
+
+
 def install():
     from pyvc import lib
     lib.EXT["rlp.decode"] = x_rlp_decode
     lib.EXT["rlp.codec.encode_raw"] = x_encode_raw
+    if branch_slot not in lib.SLOT_HOOKS:
+        lib.SLOT_HOOKS.append(branch_slot)
 
 
 install()
